@@ -171,6 +171,7 @@ func (scTCPAB) Run(t *testing.T, prop string, seed uint64, cfgRaw json.RawMessag
 		}
 		w.cleanup()
 		finish(w.World, o)
+		o.NoTwin = w.PlacementMissed
 		if w.Replay {
 			o.Tape = tape
 		}
